@@ -176,6 +176,9 @@ func frameOf(cs *drv.Case, info []byte, payload int) []byte {
 }
 
 func monC10(c *drv.Ctx) {
+	if fuzzReplayStage(c) {
+		return
+	}
 	// (1) all 65536 header-size fields x 3 bodies
 	c.Stage("all-size-fields", 65536*3, true, func(cs *drv.Case) {
 		sf := uint16(cs.Idx % 65536)
